@@ -666,3 +666,34 @@ def r6_oct_twin_lookups(ctx):
 
 
 RULES += [r5_meet_bounds_closure, r6_oct_twin_lookups]
+
+
+def r7_oct_meet_bounds(ctx):
+    ctx.rule("C12.r7", "octagons (split_oct) meet: the relations of the syntactic meet are closed on the view that SKIPS the bound edges, "
+             "so the unary bounds must be re-derived and tightened afterwards (update_bounds / a closure that includes the bound "
+             "edges / integer_tightening) on every path of the non-closed case; otherwise y <= x-5 and x+y >= -4 never give x >= 1 "
+             "and the meet does not entail what the conjunction implies", floor=1)
+    SO = "include/crab/domains/split_oct.hpp"
+    n = 0
+    for fn in ctx.db.fns(SO):
+        if fn["name"] not in ("operator&", "operator&=") or not (fn.get("cpk") or "").endswith("split_oct_domain"):
+            continue
+        for lam in [x for x in walk(fn["body"]) if x.get("k") == "lambda"]:
+            lb = lam.get("b")
+            closes = [c for c in walk(lb) if is_call(c, name=("close_after_meet", "close_johnson"))]
+            if not closes:
+                continue
+            n += 1
+            after = [c for c in walk(lb) if is_call(c, name=("update_bounds", "integer_tightening", "close_after_assign", "normalize", "close_bounds"))]
+            if after:
+                ctx.ok("%s: bounds re-derived after the closure of the relations" % fn["name"], fn, after[0])
+            else:
+                ctx.bad("split_oct_domain::%s closes the relations of the meet on the bound-skipping view and never re-derives / tightens the "
+                        "unary bounds: {x-z<=0; y-x<=-5; ...} & {-x-y<=4; y<=1; ...} does not entail -x-z <= -2 although x >= 1 follows "
+                        "over the integers (the same constraints assumed one after the other entail it)" % fn["name"], fn, closes[0],
+                        sig="oct-meet-bounds-not-rederived:%s" % fn["name"])
+    if n == 0:
+        ctx.fail("rule C12.r7: split_oct meet closure not found")
+
+
+RULES += [r7_oct_meet_bounds]
